@@ -250,6 +250,12 @@ def shard(args):
         _, k, max_cuts, dense = streams
         explore_long(acc, framing, side, k, max_cuts, dense)
         return acc
+    if streams and streams[0] == 'MANY':
+        # many of the shortest frames there are in one stream (more frames per read than any longer frame allows): every
+        # chunking with at most one cut (quick) / two cuts (thorough)
+        names = (['req07', 'req0B', 'req0C', 'req11'] * 3) if side == 'req' else (['exc01', 'rsp07', 'exc10', 'rsp02'] * 3)
+        explore_cuts(acc, framing, side, frames_for(framing, names), ['many-short-%s' % side], streams[1], True)
+        return acc
     for names in streams:
         explore_stream(acc, framing, side, names)
     return acc
@@ -289,6 +295,7 @@ def run(tier, seed):
             for i in range(0, len(triples), 3):
                 shards.append((framing, side, triples[i:i + 3]))
         for side in ('req', 'rsp'):
+            shards.append((framing, side, ('MANY', 1 if tier == 'quick' else 2)))
             if tier == 'thorough':
                 shards.append((framing, side, ('LONG', 2, 2, True)))
                 shards.append((framing, side, ('LONG', 3, 3, False)))
@@ -322,6 +329,8 @@ def run(tier, seed):
 
 def replay(w):
     framing, side, names = w['framing'], w['side'], w['stream']
+    if names and names[0].startswith('many-short-'):
+        names = (['req07', 'req0B', 'req0C', 'req11'] * 3) if side == 'req' else (['exc01', 'rsp07', 'exc10', 'rsp02'] * 3)
     frames = long_frames(framing, side, w['long']) if w.get('long') else frames_for(framing, names)
     S = b''.join(frames)
     E, why = baseline(framing, side, frames)
